@@ -104,8 +104,33 @@ def diagnose (i : Inner) (r : Resp) : String :=
     else if r.status != statusOf s then "bad:status:written status altered"
     else "bad:body:written bytes do not come first"
 
-def verdict (tpl : Bool) (m : Option ErrMode) (i : Inner) (r : Resp) : String :=
-  if good tpl m i r then "ok" else diagnose i r
+/-- the commit and status clauses of `goodCore`, without the body -/
+def statusOK (tpl : Bool) (m : Option ErrMode) (i : Inner) (r : Resp) : Bool :=
+  match i with
+  | .ret s _ =>
+    if s ≥ 400 then r.commits == 1 && r.status == s
+    else decide (r.commits ≤ 1) && (r.status == 0 || r.status == 200)
+  | .write s _ e k _ =>
+    r.commits == 1 &&
+      (if tpl && !e && (k == .tplParse || k == .tplExec) then r.status == 500 else r.status == statusOf s)
+  | .panicBefore => r.commits == 1 && r.status == 500
+  | .panicAfter s _ => (r.commits == 1 && r.status == 500) || (r.commits != 0 && r.status == statusOf s)
+
+/-- the property for what is on the wire: for a HEAD request and for the statuses 204 and 304
+net/http sends no body, so what remains is: committed once, the right status, no body, no
+Content-Length on 204/304; otherwise `good`. -/
+def goodWire (head : Bool) (tpl : Bool) (m : Option ErrMode) (i : Inner) (r : Resp) : Bool :=
+  if bodiless head r.status then
+    statusOK tpl m i r && r.body.isEmpty && (!(r.status == 204 || r.status == 304) || r.cl.isNone)
+  else good tpl m i r
+
+def verdict (head : Bool) (tpl : Bool) (m : Option ErrMode) (i : Inner) (r : Resp) : String :=
+  if goodWire head tpl m i r then "ok"
+  else if bodiless head r.status then
+    (if !r.body.isEmpty then "bad:body:a response that must not have a body carries one"
+     else if !statusOK tpl m i r then "bad:status:wrong status or not committed exactly once (bodiless response)"
+     else "bad:content-length:Content-Length on a 204/304")
+  else diagnose i r
 
 /-- handlers the property quantifies over: an error value without a status (0, err) is only
 returned by a handler that has written; a non-error status comes without an error value -/
